@@ -76,7 +76,10 @@ LawFails(j) ==
         A(i) == archs[j.as[i]]
     IN
     CASE j.law \in {"rename", "same"} ->
-            (IF R[1].aliases = R[2].aliases /\ A(1) = A(2) THEN {} ELSE {<<"MACHINERY", "viz-law-binding">>})
+            (IF R[1].aliases = R[2].aliases THEN {} ELSE {<<"MACHINERY", "viz-law-binding">>})
+            \cup (IF A(1) = A(2) THEN {} ELSE IF j.law = "rename"
+                     THEN {<<"C14", "renaming-changes-the-architecture-built-from-the-same-modules-and-imports">>}
+                     ELSE {<<"MACHINERY", "viz-law-binding">>})
             \cup (IF R[1].out = R[2].out /\ R[1].proj = R[2].proj THEN {}
                   ELSE IF j.law = "rename" THEN {<<"C14", "renaming-changes-labels">>}
                        ELSE {<<"C15", "same-visualize-call-differs">>})
